@@ -41,19 +41,6 @@ def with_member_ft(ft):
 
 
 WITNESSES = [
-    dict(coq='w_S18', key=K_FT, theorem='C09_integer_property_is_integer_refuted',
-         finding='S19-integral-float-accepted-as-integer',
-         inst={'class': 'uint', 'size': 8.0},
-         what='a YAML float with an integral value (size: 8.0) passes for an integer (Draft-7 "integer" of jsonschema 3.2.0)'),
-    dict(coq='w_enum_null', key=K_FT, theorem='C09_enum_mappings_required_refuted',
-         finding='NEW-enum-mappings-null-accepted',
-         inst={'class': 'uenum', 'size': 8, 'mappings': None},
-         what='enumeration field type with `mappings: null` passes the schemas although at least one mapping is documented as required'),
-    dict(coq='w_S3', key=K_CFG, theorem='C09_total_size_ge_content_size_refuted',
-         finding='S3-total-size-narrower-than-content-size',
-         inst=cfg_of({}, 'd', {'$features': {'packet': {'total-size-field-type': {'class': 'uint', 'size': 8},
-                                                         'content-size-field-type': {'class': 'uint', 'size': 16}}}}),
-         what='8-bit total size field type with a 16-bit content size field type is accepted (dst-obj.adoc: total size field type must be at least as large)'),
     dict(coq='w_name_nl', key=K_CFG, theorem='C09_name_identifier_refuted',
          finding='NEW-identifier-trailing-newline-accepted',
          inst=cfg_of({}, 'd\n', {}),
@@ -63,6 +50,19 @@ WITNESSES = [
 # witnesses of defects REPAIRED in /repo: the regenerated schemas (Examples of Props/C09.v), the real
 # schema stage and the real front end must now all refuse them; anything else is a regression
 REPAIRED = [
+    dict(coq='w_enum_null', key=K_FT, theorem='C09_enum_null_mappings_rejected',
+         finding='NEW-enum-mappings-null-accepted',
+         inst={'class': 'uenum', 'size': 8, 'mappings': None},
+         what='enumeration field type with `mappings: null` passes the schemas although at least one mapping is documented as required'),
+    dict(coq='w_S18', key=K_FT, theorem='C09_float_size_rejected',
+         finding='S19-integral-float-accepted-as-integer',
+         inst={'class': 'uint', 'size': 8.0},
+         what='a YAML float with an integral value (size: 8.0) passes for an integer (Draft-7 "integer" of jsonschema 3.2.0)'),
+    dict(coq='w_S3', key=K_CFG, theorem='(enforced by _create_dst, not by the schemas)', schema=0,
+         finding='S3-total-size-narrower-than-content-size',
+         inst=cfg_of({}, 'd', {'$features': {'packet': {'total-size-field-type': {'class': 'uint', 'size': 8},
+                                                         'content-size-field-type': {'class': 'uint', 'size': 16}}}}),
+         what='8-bit total size field type with a 16-bit content size field type is accepted (dst-obj.adoc: total size field type must be at least as large)'),
     dict(coq='w_S14', key=K_FT, theorem='C09_static_array_without_length_rejected',
          finding='S14-static-array-length-not-required',
          inst={'class': 'static-array', 'element-field-type': dict(UINT8)},
@@ -142,7 +142,7 @@ def run(ctx):
         rows.append({'witness': w['coq'], 'theorem': w['theorem'], 'real_schema_stage': {0: 'valid', 1: 'invalid', 3: 'exception'}[verdict],
                      'front_end': outcome, 'detail': detail})
         if w in REPAIRED:
-            if verdict != 1 or outcome != 'config_error':
+            if verdict != w.get('schema', 1) or outcome != 'config_error':
                 ctx.violation('regression of a repaired defect (%s): %s; real schema stage verdict %s, front end %s (%s)' % (
                     w['finding'], w['what'], verdict, outcome, detail),
                     {'witness': w['coq'], 'yaml': open(path).read(), 'front_end_outcome': outcome, 'detail': detail})
